@@ -189,7 +189,7 @@ Proof.
     pose proof (con4_get_nopanic g c0 key) as NG.
     destruct (con4_get g c0 key) as [x|e|]; [|cbn [fst]; discriminate|congruence].
     destruct (is_null4 x).
-    + cbn [fst]. destruct (is_null4 _); discriminate.
+    + cbn [fst]. destruct (null4 _); discriminate.
     + destruct (op_value4 op) as [ov|]; cbn [fst]; [|discriminate].
       destruct (node_equal4 x ov); discriminate.
 Qed.
